@@ -6,6 +6,7 @@
 -/
 import Proofs.C02_Lemmas
 import Proofs.C02_Source
+import Atomman.C01
 
 namespace Atomman.C02
 open Atomman
@@ -1448,6 +1449,40 @@ example :
     InCell b ⟨1, -2, 3⟩ ∧ InCell b ⟨7/2, 0, 5⟩ ∧
     V3.normSq (dvect b.vects true true true ⟨1, -2, 3⟩ ⟨7/2, 0, 5⟩) = 41/4 ∧
     ¬ (4 * V3.normSq (dvect b.vects true true true ⟨1, -2, 3⟩ ⟨7/2, 0, 5⟩) < 256/17) := by
+  decide +kernel
+
+/-! ### the `Box.vects` clean-up (C01's model of the setter statement) as the C02 driver applies it to every cell-defining
+    operation of the `World` (`C02Drv.stored`) -/
+
+/-- every entry of the cell is either exactly zero or larger (in absolute value) than `thr` times the largest entry. -/
+def CleanStable (thr : K) (v : M3 K) : Prop :=
+  ∀ x ∈ [v.r0.x, v.r0.y, v.r0.z, v.r1.x, v.r1.y, v.r1.z, v.r2.x, v.r2.y, v.r2.z],
+    x = 0 ∨ thr * C01.maxAbs v < C01.absK x
+
+theorem cleanEntry_noop (thr M x : K) (h : x = 0 ∨ thr * M < C01.absK x) : C01.cleanEntry thr M x = x := by
+  unfold C01.cleanEntry
+  split
+  · rcases h with h | h
+    · exact h.symm
+    · exact absurd ‹_› (not_le.mpr h)
+  · rfl
+
+/-- **the `Box.vects` clean-up does nothing on a clean-stable cell** (C01's model of the setter statement, the one its
+    `gen_cleanup_eq_model` ties to the source): what the `World` model stores for `B.vects = v`, `Box(vects=v)`,
+    `B.set(...)`, `S.box_set(...)` is then what atomman stores. -/
+theorem cleanVects_noop (thr : K) (v : M3 K) (h : CleanStable thr v) : C01.cleanVects thr v = v := by
+  unfold CleanStable at h
+  simp only [List.mem_cons, List.not_mem_nil, or_false, forall_eq_or_imp, forall_eq] at h
+  obtain ⟨h1, h2, h3, h4, h5, h6, h7, h8, h9⟩ := h
+  unfold C01.cleanVects C01.cleanV
+  simp only [cleanEntry_noop _ _ _ h1, cleanEntry_noop _ _ _ h2, cleanEntry_noop _ _ _ h3, cleanEntry_noop _ _ _ h4,
+    cleanEntry_noop _ _ _ h5, cleanEntry_noop _ _ _ h6, cleanEntry_noop _ _ _ h7, cleanEntry_noop _ _ _ h8,
+    cleanEntry_noop _ _ _ h9]
+
+/-- … and it is idempotent-free of surprises for the model: a tiny entry IS removed (non-vacuity of the hypothesis and of
+    its failure: `1e-12`-type residue next to entries of order 4). -/
+example : C01.cleanVects (1/1000000000 : ℚ) ⟨⟨4, 1/1000000000000, 0⟩, ⟨1, 4, 0⟩, ⟨0, 0, 4⟩⟩ = ⟨⟨4, 0, 0⟩, ⟨1, 4, 0⟩, ⟨0, 0, 4⟩⟩ ∧
+    C01.cleanVects (1/1000000000 : ℚ) ⟨⟨4, 0, 0⟩, ⟨1, 4, 0⟩, ⟨0, 0, 4⟩⟩ = ⟨⟨4, 0, 0⟩, ⟨1, 4, 0⟩, ⟨0, 0, 4⟩⟩ := by
   decide +kernel
 
 end Atomman.C02
